@@ -191,6 +191,14 @@ var vc05Faults = []string{
 	"{% type P struct{ A int; b string } %}{% type Q P %}{% x := Q{a, s} %}{{ x.A }}{{ x.b }}",
 	"{% type P []U %}{% x := P{{A: a}, {A: b}} %}{{ x[1].A }}",
 	"{% var x U %}{% y := &x %}{% y.A = a %}{{ x.A }}",
+	// a map key of interface type holding an unhashable value, in every map operation
+	"{% m := map[interface{}]int{} %}{% var k interface{} = a %}{% if b > 0 %}{% k = sl %}{% end %}{% x := m[k] %}{% if x == a %}T{% end %}",
+	"{% m := map[interface{}]int{} %}{% var k interface{} = a %}{% if b > 0 %}{% k = sl %}{% end %}{% _, ok := m[k] %}{% if ok %}T{% end %}",
+	"{% m := map[interface{}]int{} %}{% var k interface{} = a %}{% if b > 0 %}{% k = sl %}{% end %}{% m[k]++ %}",
+	"{% m := map[interface{}]int{1: 2} %}{% var k interface{} = a %}{% if b > 0 %}{% k = sl %}{% end %}{% if m contains k %}T{% end %}",
+	"{% m := map[interface{}]int{1: 2} %}{% var k interface{} = a %}{% if b > 0 %}{% k = sl %}{% end %}{% delete(m, k) %}",
+	"{% var k interface{} = a %}{% if b > 0 %}{% k = sl %}{% end %}{% m := map[interface{}]int{k: 1} %}{% if len(m) == 1 %}T{% end %}",
+	"{% var x interface{} = a %}{% var y interface{} = a %}{% if b > 0 %}{% x = sl %}{% y = sl %}{% end %}{% switch x %}{% case y %}T{% end %}",
 }
 
 type v5T struct{ s string }
@@ -231,7 +239,37 @@ func vc05_e2e_faults(lo, hi int, small bool) {
 func vh_c05_e2e_faults1_q()  { vc05_e2e_faults(0, 10, false) }
 func vh_c05_e2e_faults2_q()  { vc05_e2e_faults(10, 20, false) }
 func vh_c05_e2e_faults3_q()  { vc05_e2e_faults(20, 28, false) }
-func vh_c05_e2e_faults4s_q() { vc05_e2e_faults(28, len(vc05Faults), true) }
+func vh_c05_e2e_faults4s_q() { vc05_e2e_faults(28, 37, true) }
+func vh_c05_e2e_faults5s_q() { vc05_e2e_faults(37, len(vc05Faults), true) }
 func vh_c05_e2e_faults1s_q() { vc05_e2e_faults(0, 10, true) }
 func vh_c05_e2e_faults2s_q() { vc05_e2e_faults(10, 20, true) }
 func vh_c05_e2e_faults3s_q() { vc05_e2e_faults(20, 28, true) }
+
+
+// C13: a rendered Markdown file is converted at the return of its macro, the
+// converter writes to the template output: a failure of that write is
+// returned by Run like every other write failure.
+func vc13_e2e_md() {
+	s := vsym_string(1)
+	conv := func(src []byte, out io.Writer) error {
+		_, err := out.Write(src)
+		return err
+	}
+	fsys := Files{"index.html": []byte("a{{ render \"x.md\" }}b{{ s }}"), "x.md": []byte("# t{{ s }}")}
+	opts := &BuildOptions{Globals: native.Declarations{"s": &s}, MarkdownConverter: conv}
+	tmpl, err := BuildTemplate(fsys, "index.html", opts)
+	vassert(err == nil, "builds")
+	var w0 vfailWriter
+	vassert(tmpl.Run(&w0, nil, nil) == nil, "runs-without-failure")
+	total := w0.writes
+	vassume(total > 0)
+	k := 1 + vsym_choice(total)
+	w1 := vfailWriter{failAt: k}
+	err, rec := vrunRecover(tmpl, &w1)
+	vassert(rec == nil, "no-host-panic")
+	vassert(err == vErrE2E, "run-returns-the-writer-error-itself")
+	vassert(w1.after == 0, "no-write-after-the-failing-one")
+	vreach("end")
+}
+
+func vh_c13_e2e_md_q() { vc13_e2e_md() }
